@@ -11,18 +11,21 @@ recorder plugin, thorough tier) are validated by TLC against TraceSamplerLife.tl
 """
 META = {
     "claimed": True,
-    "engine": "SamplerLife.tla",
+    "engine": "SamplerLife.tla + SamplerHist.tla",
     "text": ("TLC explores every life-cycle behaviour of the bounded instance (all splits of Sample(n), Save/FreshLoad at every "
              "position, Reinit, warm-up on/off, all (N, Nb) of the stateless interface), checks Consecutive / Tracks / CallbackOnce "
              "/ Length / AppendOnly / LegacyOK on every intermediate state (three named deviations are required to violate them), "
              "and every emitted behaviour is replayed on all samplers of both interfaces against an uninterrupted reference run; "
              "recorded executions are validated against the trace refinement of the same spec. BayesianProblem.sample_posterior is "
              "run on every dispatch branch x both sampler families: the chain handed to the user is the last Ns states produced (the "
-             "LegacySample rule of the spec), seen through the documented callback."),
+             "LegacySample rule of the spec), seen through the documented callback. SamplerHist.tla (EXTENDS SamplerLife) carries the RECORD "
+             "over with the checkpoint (SaveAll / FreshLoadAll = get_state + get_history / set_state + set_history into a fresh sampler): "
+             "Consecutive, Tracks, CallbackOnceH, LengthH, LoadedIsSaved on every state, two named deviations refuted; its behaviours "
+             "that load a non-empty record and sample on are replayed on every stateful sampler."),
     "note": ("Targets are small (dim 1-4); chains compared at rtol 1e-9 (RegularizedLinearRTO re-estimates its step size); the "
              "random stream is restored to the position of the checkpoint as the property presupposes. HybridGibbs offers no "
              "checkpoint / reinitialize / callback API: only continuity, length and append-only are decided for it."),
-    "technique": "TLA+ spec (SamplerLife) model-checked with TLC; TLC-generated behaviours replayed into the samplers; recorded traces validated by TLC",
+    "technique": "TLA+ specs (SamplerLife, SamplerHist, BatchQueue) model-checked with TLC; TLC-generated behaviours replayed into the samplers; recorded traces validated by TLC",
 }
 
 import copy, os, pickle, random, warnings
